@@ -102,8 +102,10 @@ def oracle(blocks, order, preserve):
     return res
 
 
-def drv(kinds, keys, order, preserve):
+def drv(kinds, keys, order, preserve, remove_idx=None):
     lib = Library(build(kinds, keys))
+    if remove_idx is not None:
+        lib.remove(lib.blocks[remove_idx])
     before = list(lib.blocks)
     snap = [(type(b), b.start_line, b.raw, block_key(b)) for b in before]
     out = SortBlocksByTypeAndKeyMiddleware(block_type_order=order, preserve_comments_on_top=preserve).transform(lib)
@@ -133,11 +135,11 @@ def verdict(res, E):
     return conds
 
 
-def replay(kinds, keys, oname, preserve):
+def replay(kinds, keys, oname, preserve, remove_idx=None):
     import logging
     logging.disable(logging.CRITICAL)
     try:
-        res = drv(kinds, keys, ORDERS[oname], preserve)
+        res = drv(kinds, keys, ORDERS[oname], preserve, remove_idx)
     except Exception as ex:  # noqa
         return {"input": [kinds, keys, oname, preserve], "observed": f"raised {type(ex).__name__}: {ex}", "expected": "sorted library"}
     if all(bool(c) for c in verdict(res, lambda a, b: a == b)):
@@ -146,21 +148,21 @@ def replay(kinds, keys, oname, preserve):
             "expected": [(res[0][i][0].__name__, res[0][i][1], res[0][i][3]) for i in res[4]]}
 
 
-def task(kinds):
+def task(kinds, remove_idx=None):
     total = None
     for oname, preserve in itertools.product(ORDERS, (True, False)):
         eng = Engine()
         rec = Recorder(eng)
         keys = [eng.sym_str(f"k{i}_", 1, "ab") if kd in "SE" else "" for i, kd in enumerate(kinds)]
         E = eng.I.models.eq_simple
-        worlds = eng.run(drv, [kinds, keys, ORDERS[oname], preserve])
+        worlds = eng.run(drv, [kinds, keys, ORDERS[oname], preserve, remove_idx])
         for W in worlds:
-            rp = lambda m: replay(kinds, eng.model_value(m, keys), oname, preserve)
+            rp = lambda m: replay(kinds, eng.model_value(m, keys), oname, preserve, remove_idx)
             if W.exc is not None:
                 rec.require(W, True, "no-exception", rp)
                 continue
             rec.require(W, b_not(b_all(verdict(W.result, E))), "stable-sorted-permutation", rp)
-            if W.result[4] != list(range(len(kinds))):
+            if W.result[4] != list(range(len(W.result[0]))):
                 rec.witness("reordered", W)
             if any(t is M.DuplicateBlockKeyBlock for t, _, _, _ in W.result[0]):
                 rec.witness("duplicate-wrapper-sorted", W)
@@ -207,6 +209,11 @@ def main():
     chk.expected_vacuity = ["reordered", "duplicate-wrapper-sorted"]
     for s in seqs:
         chk.add_task(f"seq-{s}", task, kinds=s)
+    # libraries in which the first block was removed again (a duplicate wrapper may outlive its original)
+    rem = [s for s in seqs if 2 <= len(s) <= 3 and (s.count("E") >= 2 or s.count("S") >= 2)]
+    chk.bounds["after remove"] = f"{len(rem)} sequences with two same-kind keyed blocks, first block removed before sorting"
+    for s in rem:
+        chk.add_task(f"rem0-{s}", task, kinds=s, remove_idx=0)
     chk.run()
 
 
